@@ -92,7 +92,7 @@ theorem writable_fold (env : Env) : ∀ (t : Tree) (pre : Path) (st : WritableSt
                 exceptIsOk ((st.fs.push (Tree.node (.element name) ks).nsDecls).attributeFullname env n)) } from rfl]
       rw [writable_fold_list env ks pre 0]
       simp only [writableStep, Tree.value, Value.isElement, ↓reduceIte, hasNamespaceDeclarations,
-        FStack.pop_push, FStack.top_push, wr, elementOk]
+        FStack.pop_push_sc, FStack.top_push, wr, elementOk]
       congr 1
       rw [elementFullname_top, FStack.top_push, hasDefaultNamespace_top, FStack.top_push]
       simp only [attributeFullname_top env (st.fs.push _), FStack.top_push, Bool.and_assoc]
@@ -175,7 +175,7 @@ theorem unresolved_fold (env : Env) : ∀ (t : Tree) (pre : Path) (st : Unresolv
         split <;> simp
       rw [hstart, unresolved_fold_list env ks pre 0]
       simp only [unresolvedStep, Tree.value, Value.isElement, ↓reduceIte, hasNamespaceDeclarations,
-        FStack.pop_push, FStack.top_push, unresolvedRec, List.append_assoc]
+        FStack.pop_push_sc, FStack.top_push, unresolvedRec, List.append_assoc]
     | document => simpa [Value.isNormal, Value.category, unresolvedStep, Tree.value, Value.isElement, unresolvedRec] using unresolved_fold_list env ks pre 0 st
     | text s => simpa [Value.isNormal, Value.category, unresolvedStep, Tree.value, Value.isElement, unresolvedRec] using unresolved_fold_list env ks pre 0 st
     | pi a b => simpa [Value.isNormal, Value.category, unresolvedStep, Tree.value, Value.isElement, unresolvedRec] using unresolved_fold_list env ks pre 0 st
